@@ -685,6 +685,20 @@ func runeConsts(fn *ssa.Function) (consts map[string]bool, calls map[string]bool
 			}
 		case *ssa.Call:
 			if co := calleeObj(&x.Call); co != nil {
+				// a cut set handed to strings/bytes.Trim*/IndexAny/ContainsAny tests each of its characters
+				if co.Pkg() != nil && (co.Pkg().Path() == "strings" || co.Pkg().Path() == "bytes") {
+					switch co.Name() {
+					case "TrimLeft", "TrimRight", "Trim", "IndexAny", "LastIndexAny", "ContainsAny":
+						if len(x.Call.Args) == 2 {
+							if s, ok := constString(x.Call.Args[1]); ok {
+								for _, r := range s {
+									consts[string(r)] = true
+								}
+								return
+							}
+						}
+					}
+				}
 				calls[co.FullName()] = true
 			}
 		}
